@@ -208,3 +208,10 @@ def run_instances(fn, items, procs=None):
     ctx = mp.get_context('fork')
     with ctx.Pool(procs, maxtasksperchild=1) as pool:
         return list(pool.imap_unordered(_call, [(fn, it) for it in items], chunksize=1))
+
+
+def fit_budget(n_instances, tier, quick_s, cap_quick, thorough_wall_s=900, cap_thorough=900):
+    """Per-instance time budget so that n instances on 16 cores finish in about the tier's wall-time target."""
+    if tier == 'quick':
+        return min(cap_quick, quick_s)
+    return max(20.0, min(cap_thorough, 16.0 * thorough_wall_s / max(1, n_instances)))
